@@ -83,3 +83,52 @@ pub proof fn lemma_all_zero_step(b0: Seq<u8>, b1: Seq<u8>, lo: int, p: int)
         if j < p { assert(!bit_at(b0, j)); }
     }
 }
+
+// ===== the presence protocol as the GLUE sees it (one step per component, positions abstracted) =====
+
+/// positions the scope refers to lie inside what has been written
+pub open spec fn wscope_pos_ok(s: Scope, wp: int) -> bool {
+    match s {
+        Scope::OptBitField(range) => range.start <= range.end && range.end <= wp,
+        Scope::AllBitField(range) => range.start <= range.end && range.end <= wp,
+        Scope::ExtensibleSequence { name, bit_pos, opt_bit_field, calls_until_ext_bitfield, number_of_ext_fields } =>
+            bit_pos < wp && number_of_ext_fields <= HALF() && (opt_bit_field matches Some(range) ==> range.start <= range.end && range.end <= wp),
+        Scope::ExtensibleSequenceEmpty(_) => true,
+    }
+}
+
+/// one successful writer step of the protocol for a component with or without presence bit (is_opt):
+/// scope before / after and the write position before / after
+pub open spec fn wstep_abs(s0: Scope, wp0: int, is_opt: bool, s1: Scope, wp1: int) -> bool {
+    wp1 >= wp0 && match s0 {
+        Scope::OptBitField(range) => s1 == Scope::OptBitField(Range { start: (range.start + (if is_opt { 1int } else { 0int })) as usize, end: range.end }),
+        Scope::AllBitField(range) => s1 == Scope::AllBitField(Range { start: (range.start + 1) as usize, end: range.end }),
+        Scope::ExtensibleSequence { name, bit_pos, opt_bit_field, calls_until_ext_bitfield, number_of_ext_fields } =>
+            if calls_until_ext_bitfield == 0 {
+                // first extension addition: absent => nothing follows; present => header + bitmap of all additions were written
+                s1 == Scope::ExtensibleSequenceEmpty(name)
+                || (s1 matches Scope::AllBitField(r1) && r1.start <= r1.end && r1.end - r1.start == number_of_ext_fields - 1 && r1.end <= wp1)
+            } else {
+                s1 == (Scope::ExtensibleSequence { name, bit_pos,
+                    opt_bit_field: (match opt_bit_field { Some(range) if is_opt => Some(Range { start: (range.start + 1) as usize, end: range.end }), _ => opt_bit_field }),
+                    calls_until_ext_bitfield: (calls_until_ext_bitfield - 1) as usize, number_of_ext_fields })
+            },
+        Scope::ExtensibleSequenceEmpty(_) => s1 == s0,
+    }
+}
+
+/// the functional step contract of Scope::write_into_field implies the abstract step
+pub proof fn lemma_wstep_abs(s0: Scope, b0: BitBuffer, is_opt: bool, is_present: bool, s1: Scope, b1: BitBuffer, r: Result<(), Error>)
+    requires scope_write_step(s0, b0, is_opt, is_present, s1, b1, r), r is Ok, scope_write_pre(s0, b0, is_opt), b0.wf()
+    ensures wstep_abs(s0, b0.write_position as int, is_opt, s1, b1.write_position as int)
+{
+    match s0 {
+        Scope::ExtensibleSequence { name, bit_pos, opt_bit_field, calls_until_ext_bitfield, number_of_ext_fields } => {
+            if calls_until_ext_bitfield == 0 && is_present {
+                let l = x691_nsnnwn((number_of_ext_fields - 1) as u64).len() as int;
+                assert(b1.write_position == b0.write_position + l + number_of_ext_fields);
+            }
+        }
+        _ => {}
+    }
+}
